@@ -32,12 +32,18 @@ class Outcome:
         return '%s:%s' % self.klass
 
 
-def execute(pool, rundir, template, collect=(), prepare=None, keep=False):
+def execute(pool, rundir, template, collect=(), prepare=None, keep=False, name=None):
     """template: spec dict with placeholders.  collect: names (relative to the run dir) of files to read back.
     prepare(run_path): optional callback that materialises input files before the run."""
     with _lock:
         n = next(_counter)
-    run = os.path.join(rundir, 'r%d' % n)
+    run = os.path.join(rundir, 'r%07d' % n)   # fixed width: the path length must not depend on the run counter (it would leak into heap layouts)
+    if name:
+        # a plan-determined name (8 chars like the default): re-executing the same plan then sees byte-identical paths,
+        # which matters when heap layouts and string-hash orders are part of what is compared
+        cand = os.path.join(rundir, name[:8].ljust(8, '_'))
+        if not os.path.exists(cand):
+            run = cand
     os.makedirs(run)
     try:
         spec = subst(template, run)
